@@ -176,8 +176,8 @@ def lowerAscii (s : Str) : Str := s.map Char.toLower
 
 /-- `CmdOption._boolean_states` -/
 def booleanStates : List (Str × Bool) :=
-  [("1".toList, true), ("yes".toList, true), ("true".toList, true), ("on".toList, true),
-   ("0".toList, false), ("no".toList, false), ("false".toList, false), ("off".toList, false)]
+  [(['1'], true), (['y', 'e', 's'], true), (['t', 'r', 'u', 'e'], true), (['o', 'n'], true),
+   (['0'], false), (['n', 'o'], false), (['f', 'a', 'l', 's', 'e'], false), (['o', 'f', 'f'], false)]
 
 def str2bool (s : Str) : Option Bool := alookup (lowerAscii s) booleanStates
 
